@@ -20,6 +20,7 @@ theorem carries_cases {v : JsVal} {fl : Flow} (h : Carries v fl) :
     (∃ o, fl = .panic (.val v) o) ∨ (∃ t o, fl = .panic (.exc ⟨v, t⟩) o) := by
   cases fl with
   | normal => simp [Carries] at h
+  | pending e0 => simp [Carries] at h
   | panic x o =>
     cases x <;> simp [Carries] at h
     · left; exact ⟨o, by rw [h]⟩
@@ -40,12 +41,12 @@ theorem applyFrame_carries (idx : Nat) (f : Frame) (cjs : Bool) {v : JsVal} {fl 
   · cases f with
     | js k =>
       cases k <;> simp [Frame.swallows, JsKind.swallows, JsKind.hasCatch, JsKind.rethrows] at hsw <;>
-        simp [applyFrame, jsFrame, handleThrow, handleThrowLoop, exceptionFromValue, JsKind.hasCatch,
+        simp [applyFrame, applyFrameCore, jsFrame, handleThrow, handleThrowLoop, exceptionFromValue, JsKind.hasCatch,
           JsKind.hasFinally, JsKind.rethrows, Carries, LogOk]
     | xfe =>
       rcases hu with hu | hu
       · cases cjs <;>
-          simp [applyFrame, callable, invoke, jsCall, runWrapped, vmTry, handleThrow, handleThrowLoop,
+          simp [applyFrame, applyFrameCore, callable, invoke, jsCall, runWrapped, vmTry, handleThrow, handleThrowLoop,
             exceptionFromValue, wrapJSFuncE, returnErr, wrapReflectErr, hu, Carries]
       · simp [Frame.unwraps] at hu
     | ja => simp [Frame.swallows] at hsw
@@ -53,18 +54,18 @@ theorem applyFrame_carries (idx : Nat) (f : Frame) (cjs : Bool) {v : JsVal} {fl 
     | rfw => simp [Frame.rewraps] at hrw
     | _ =>
       cases cjs <;>
-        simp [applyFrame, callable, invoke, jsCall, runWrapped, vmTry, handleThrow, handleThrowLoop,
+        simp [applyFrame, applyFrameCore, callable, invoke, jsCall, runWrapped, vmTry, handleThrow, handleThrowLoop,
           exceptionFromValue, panicErr, returnErr, wrapReflectErr, wrapJSFuncN, ErrVal.toPv, shim, jsFrame,
           runProgram, runProgram.handleThrowOpt, JsKind.hasCatch, JsKind.hasFinally, Carries, panicValue, LogOk]
   · cases f with
     | js k =>
       cases k <;> simp [Frame.swallows, JsKind.swallows, JsKind.hasCatch, JsKind.rethrows] at hsw <;>
-        simp [applyFrame, jsFrame, handleThrow, handleThrowLoop, exceptionFromValue, JsKind.hasCatch,
+        simp [applyFrame, applyFrameCore, jsFrame, handleThrow, handleThrowLoop, exceptionFromValue, JsKind.hasCatch,
           JsKind.hasFinally, JsKind.rethrows, Carries, LogOk]
     | xfe =>
       rcases hu with hu | hu
       · cases cjs <;>
-          simp [applyFrame, callable, invoke, jsCall, runWrapped, vmTry, handleThrow, handleThrowLoop,
+          simp [applyFrame, applyFrameCore, callable, invoke, jsCall, runWrapped, vmTry, handleThrow, handleThrowLoop,
             exceptionFromValue, wrapJSFuncE, returnErr, wrapReflectErr, hu, Carries]
       · simp [Frame.unwraps] at hu
     | ja => simp [Frame.swallows] at hsw
@@ -72,7 +73,7 @@ theorem applyFrame_carries (idx : Nat) (f : Frame) (cjs : Bool) {v : JsVal} {fl 
     | rfw => simp [Frame.rewraps] at hrw
     | _ =>
       cases cjs <;>
-        simp [applyFrame, callable, invoke, jsCall, runWrapped, vmTry, handleThrow, handleThrowLoop,
+        simp [applyFrame, applyFrameCore, callable, invoke, jsCall, runWrapped, vmTry, handleThrow, handleThrowLoop,
           exceptionFromValue, panicErr, returnErr, wrapReflectErr, wrapJSFuncN, ErrVal.toPv, shim, jsFrame,
           runProgram, runProgram.handleThrowOpt, JsKind.hasCatch, JsKind.hasFinally, Carries, panicValue, LogOk]
 
@@ -85,12 +86,12 @@ theorem applyFrame_swallow (idx : Nat) (f : Frame) (cjs : Bool) {v : JsVal} {fl 
   · rename_i k
     rcases carries_cases hc with ⟨o, rfl⟩ | ⟨t, o, rfl⟩ <;>
       cases k <;> simp [JsKind.swallows, JsKind.hasCatch, JsKind.rethrows] at hsw <;>
-        simp [applyFrame, jsFrame, handleThrow, handleThrowLoop, exceptionFromValue, JsKind.hasCatch,
+        simp [applyFrame, applyFrameCore, jsFrame, handleThrow, handleThrowLoop, exceptionFromValue, JsKind.hasCatch,
           JsKind.hasFinally, JsKind.rethrows, LogOk]
   · rcases carries_cases hc with ⟨o, rfl⟩ | ⟨t, o, rfl⟩ <;>
-      simp [applyFrame, handleThrow, handleThrowLoop, exceptionFromValue, LogOk]
+      simp [applyFrame, applyFrameCore, handleThrow, handleThrowLoop, exceptionFromValue, LogOk]
   · rcases carries_cases hc with ⟨o, rfl⟩ | ⟨t, o, rfl⟩ <;> cases cjs <;>
-      simp [applyFrame, callable, invoke, jsCall, runWrapped, vmTry, handleThrow, handleThrowLoop,
+      simp [applyFrame, applyFrameCore, callable, invoke, jsCall, runWrapped, vmTry, handleThrow, handleThrowLoop,
         exceptionFromValue, LogOk]
 
 theorem evalSeg_carries (s : Seg) (ijs : Bool) {v : JsVal} {fl : Flow}
